@@ -319,3 +319,42 @@ func loadReplay(t testing.TB, v any) {
 		t.Fatalf("replay case: %v", err)
 	}
 }
+
+// ---------- process budget ----------
+
+// softDeadline is set by the driver (VERIF_SOFT_DEADLINE, unix seconds) well before the process's hard timeout: once
+// it has passed, remaining generated cases are not run (they return at once and are labelled), so that a loaded
+// machine ends a check early with what it explored instead of hitting the hard timeout. Never a verdict.
+var softDeadline = func() time.Time {
+	v := os.Getenv("VERIF_SOFT_DEADLINE")
+	if v == "" {
+		return time.Time{}
+	}
+	var n int64
+	fmt.Sscan(v, &n)
+	if n <= 0 {
+		return time.Time{}
+	}
+	return time.Unix(n, 0)
+}()
+
+func pastSoftDeadline(st *stats) bool {
+	if softDeadline.IsZero() || time.Now().Before(softDeadline) {
+		return false
+	}
+	if st != nil {
+		st.label("case-not-run:wall-clock-budget-of-process-used-up")
+	}
+	return true
+}
+
+// outOfBudget: wall-clock budget or the per-process world budget (memory) is used up.
+func outOfBudget(st *stats) bool {
+	if worldsMade >= maxWorlds() {
+		if st != nil {
+			st.label("case-not-run:world-budget-of-process-used-up")
+		}
+		return true
+	}
+	return pastSoftDeadline(st)
+}
